@@ -1,5 +1,6 @@
 """Engine: contract registry, path exploration, function/lemma verification."""
 import ast
+import os
 import time
 import traceback
 from typing import Any, Callable, Dict, List, Optional, Tuple
@@ -155,8 +156,9 @@ def explore(run: Callable[[Path], None], res: UnitResult, max_paths: int, ob_tim
         path = Path(preset, ob_timeout_ms=ob_timeout_ms)
         try:
             run(path)
-        except PathEnd:
-            pass
+        except PathEnd as e:
+            if os.environ.get("PYVC_DEBUG"):
+                print(f"  [path {path.path_id()}] ended: {e}")
         except Unsupported as e:
             msg = f"outside-subset: {e}"
             if msg not in res.errors:
